@@ -76,8 +76,12 @@ func actAkaMarshal(e *Env, a J) J {
 		// the order in which attributes are emitted is the encoder's choice (the properties prescribe none): the encoding is compared
 		// with the reference encoding attribute by attribute, both in ascending type order; emitting twice gives the same octets
 		o["wire"] = octOf(akaCanon(b))
-		b2, err2 := p.Marshal()
-		o["twice"] = err2 == nil && string(b) == string(b2)
+		same := true
+		for rep := 0; rep < 8 && same; rep++ {
+			b2, err2 := p.Marshal()
+			same = err2 == nil && string(b) == string(b2)
+		}
+		o["twice"] = same
 	}
 	o["attrs"] = akaState(p)
 	return o
@@ -124,14 +128,26 @@ func actAkaCalcMac(e *Env, a J) J {
 		// the code is HMAC-SHA-256-128 over the packet AS IT IS SENT with the AT_MAC value zeroed: over the octets this object emits
 		// now (the computation leaves AT_MAC zeroed), whatever order it emits its attributes in; those octets are a legal encoding of
 		// the attribute map (refwire: compared with the reference encoding in ascending type order)
-		if w, werr := p.Marshal(); werr == nil {
+		// (asked again and again: an encoder whose attribute order varies from call to call -- map iteration -- would agree with
+		//  itself only some of the time)
+		ok := true
+		for rep := 0; rep < 16 && ok; rep++ {
+			w, werr := p.Marshal()
+			if werr != nil {
+				ok = false
+				break
+			}
 			h := hmac.New(sha256.New, key)
 			h.Write(w)
-			o["macok"] = string(h.Sum(nil)[:16]) == string(mac)
-			o["refwire"] = octOf(akaCanon(w))
-		} else {
-			o["macok"] = false
+			ok = string(h.Sum(nil)[:16]) == string(mac)
+			if rep == 0 {
+				o["refwire"] = octOf(akaCanon(w))
+			}
+			if m2, e2 := p.CalcEapAkaPrimeAtMAC(key); e2 != nil || string(m2) != string(mac) {
+				ok = false
+			}
 		}
+		o["macok"] = ok
 	}
 	return o
 }
